@@ -240,7 +240,7 @@ def c14(run, tier):
     saved = run.harness
     run.harness = race
     racelog = os.path.join(run.work, "race")
-    run.env["GORACE"] = "log_path=%s halt_on_error=0 atexit_sleep_ms=0" % racelog
+    run.env["GORACE"] = "log_path=%s halt_on_error=0 atexit_sleep_ms=0 exitcode=0" % racelog
     run.env["VERIF_CONC_REPS"] = str(Q(tier, 6, 25))
     try:
         rep = run.tlc_gen_replay("Xsel", cfg, "workloads", timeout=Q(tier, 600, 3000), harness_args=["-workers", "4"])
@@ -292,7 +292,7 @@ def c14(run, tier):
         tr = os.path.join(d, "hook.log")
         e = dict(env)
         e["XSEL_VERIF_TRACE"] = tr
-        e["GORACE"] = "halt_on_error=0 atexit_sleep_ms=0"
+        e["GORACE"] = "halt_on_error=0 atexit_sleep_ms=0 exitcode=0"
         got = cli.run_cli(binary, ["-c", str(n), mode, "-x", "//a"] + rel, env=e, cwd=d, timeout=300)
         nruns += 1
         run.evaluations += 1
@@ -383,7 +383,7 @@ def c14_replay(run, path):
         rc = json.load(open(path))
     if rc.get("fam") == "C14.workload":
         h = run.build_harness(race=True)
-        e = dict(run.env, GORACE="halt_on_error=0 atexit_sleep_ms=0", VERIF_CONC_REPS="200")
+        e = dict(run.env, GORACE="halt_on_error=0 atexit_sleep_ms=0 exitcode=0", VERIF_CONC_REPS="200")
         p = subprocess.run([h, "replay-one", path], env=e, capture_output=True, text=True)
         print(p.stdout[-2000:])
         bad = p.returncode == 1 or "DATA RACE" in p.stderr
